@@ -1167,3 +1167,6 @@ def run_case(case):
     out.info = {"ops": len(case["ops"]), "nodes": len(_walk(S.root)), "accepted": S.accepted,
                 "rejected": S.rejected, "last": concrete[-3:]}
     return out
+
+
+RULE = RULE + " " + "Later additions: alias units that are displayed differently from how they are written; a refused add leaves the offered parameter's parent and extended key alone."
